@@ -189,6 +189,11 @@ RD_FIELDS = ("[src_rack_label, src_rack_id, src_rack_type, fmt_int(src_start), f
              " ('0' if direction == 'left_to_right' else '1')]")
 
 
+# a valid call (the native evaluation always tries it with exclusion lists whose decimal strings sort differently from the numbers)
+RD_VALID = {"src_rack_label": "src", "src_start": 1, "src_end": 8, "dst_rack_label": "dst", "dst_start": 1, "dst_end": 96, "volume": 50, "diti_reuse": 1,
+            "multi_disp": 1, "liquid_class": "Water", "direction": "left_to_right", "src_rack_id": "", "src_rack_type": "", "dst_rack_id": "", "dst_rack_type": ""}
+
+
 def _excl(n):
     def make(ex):
         return rd_args(ex, exclude_wells=SeqV.of("list", [sint(f"excl{i}") for i in range(n)]))
@@ -207,7 +212,8 @@ def install(world):  # noqa: F811
         scenarios=[
             Scenario("all well-typed, no exclusions", lambda ex: rd_args(ex)),
             Scenario("exclude_wells:[]", _excl(0)), Scenario("exclude_wells:[int]", _excl(1)),
-            Scenario("exclude_wells:[int,int]", _excl(2)), Scenario("exclude_wells:[int,int,int]", _excl(3)),
+            Scenario("exclude_wells:[int,int]", _excl(2), pins=[dict(RD_VALID, excl0=10, excl1=9), dict(RD_VALID, excl0=9, excl1=10)]),
+            Scenario("exclude_wells:[int,int,int]", _excl(3), pins=[dict(RD_VALID, excl0=100, excl1=9, excl2=10, dst_end=384)]),
             Scenario("volume:int", lambda ex: rd_args(ex, volume=sint("volume"))),
             Scenario("volume:nan", lambda ex: rd_args(ex, volume=float("nan"))),
             Scenario("src_start:float", lambda ex: rd_args(ex, src_start=sreal("src_start"))),
